@@ -14,7 +14,7 @@ try:
     p = subprocess.run(["tlc", "-metadir", d + "/m", "-noGenerateSpecTE", "-config", "EvalTmp.cfg", "EvalTmp.tla"],
                        cwd=d, stdout=subprocess.PIPE, stderr=subprocess.STDOUT, text=True)
     out = p.stdout
-    i = out.find('<<"EVAL"')
+    import re as _re; _m = _re.search(r"<<\s*\"EVAL\"", out); i = _m.start() if _m else -1
     if i >= 0:
         j = out.find("Starting...", i)
         print(out[i:j].strip())
